@@ -703,6 +703,14 @@ def _flush_inline(w):
         return
     if s.endswith("\n"):
         s = s[:-1]
+    for k, ln in enumerate(s.split("\n")):
+        mm = re.search(r"//[^/]*?((?:@C\d+\.[A-Za-z0-9_.\-]+\s*)+)$", ln)
+        if mm and ln.split("//")[0].strip():
+            # labelled proof hint inserted into a function body: a failing assert / lemma call on
+            # this line is reported under the label
+            w.clauses.append({"line_start": w.cur_line() + k, "line_end": w.cur_line() + k,
+                              "labels": re.findall(r"@(C\d+\.[A-Za-z0-9_.\-]+)", mm.group(1)),
+                              "kind": "hint", "fn": None, "item": None, "text": " ".join(ln.split("//")[0].split())})
     w.add(s)
 
 
